@@ -173,12 +173,14 @@ pub fn run_rust(case: &Case, scratch: &Scratch) -> Obs {
     for (i, s) in case.sources.iter().enumerate() {
         if let Some(n) = &s.name {
             let path = format!("{}/{}", scratch.dir, n);
-            let mut bytes = s.bytes.clone();
-            if let Some((idx, _)) = case.rerr {
-                if idx == i {
-                    // read faults are only injected on stdin; a file source is left intact
-                    bytes = s.bytes.clone();
+            let bytes = s.bytes.clone();
+            if let Some((idx, off)) = case.rerr {
+                if idx == i && off == 0 {
+                    // a file source that fails before its first byte: the file does not exist
+                    let _ = std::fs::remove_file(&path);
+                    continue;
                 }
+                // other read faults are only injected on stdin; a file source is left intact
             }
             std::fs::write(&path, &bytes).expect("write source file");
         }
